@@ -53,6 +53,18 @@ func injectC12(r *rand.Rand, g *spec.Grammar) string {
 		ru.Rhs = append(ru.Rhs[:p], append([]spec.Sym{s}, ru.Rhs[p:]...)...)
 	}
 	kind := r.Intn(15)
+	// every third time the unproductive nonterminal carries the name of yaccgo's augmented start symbol
+	loopName := func() string {
+		if r.Intn(3) != 0 {
+			return "Loop"
+		}
+		for _, x := range g.NTs {
+			if x.Name == "start" {
+				return "Loop"
+			}
+		}
+		return "start"
+	}
 	switch kind {
 	case 0: // undefined identifier
 		g.Tokens = append(g.Tokens, spec.Token{Name: "Uq", Decl: "undeclared"})
@@ -64,12 +76,12 @@ func injectC12(r *rand.Rand, g *spec.Grammar) string {
 		insert(anyRule(), spec.Sym{I: n})
 		return "nonterminal without rule in a rhs (plain identifier)"
 	case 2: // unproductive self recursive, deep
-		n := addNT("Loop")
+		n := addNT(loopName())
 		g.Rules = append(g.Rules, spec.Rule{Lhs: n, Rhs: []spec.Sym{{T: true, I: 0}, {I: n}}, Prec: -1})
 		insert(anyRule(), spec.Sym{I: n})
 		return "unproductive nonterminal used deep"
 	case 3: // unproductive, unreachable
-		n := addNT("Loop")
+		n := addNT(loopName())
 		g.Rules = append(g.Rules, spec.Rule{Lhs: n, Rhs: []spec.Sym{{I: n}, {T: true, I: 0}}, Prec: -1})
 		return "unproductive nonterminal, unreachable"
 	case 4: // mutually recursive pair
